@@ -109,9 +109,20 @@ pub fn run_c12(tier: Tier) -> ! {
         alphabet.push(Sym::Tel(rc::status_req(ts, stranger), Gap::G33));
         alphabet.push(Sym::Tel(rc::status_req(other, ps), Gap::G33));
         alphabet.push(Sym::Tel(rc::status_req(127, ps), Gap::G33));
+        // coarse poll schedule: the station finds a status request and a further telegram behind it in one
+        // poll (the requester has moved on: no reply any more), or a request as the last telegram
+        let e = |f: rc::RFrame| rc::encode(&f);
+        alphabet.push(Sym::Burst(vec![e(rc::status_req(ts, ps)), e(rc::token(other, ps))]));
+        alphabet.push(Sym::Burst(vec![e(rc::status_req(ts, other)), e(rc::status_req(ps, other))]));
+        alphabet.push(Sym::Burst(vec![e(rc::token(ps, other)), e(rc::status_req(ts, ps))]));
         for div in tier.pick(vec![8i64], vec![8, 4]) {
             let cfg = W2Cfg { ts, hsa: 7, gap_factor: 1, baud: 1, slot_bits: 100, ttr: Some(300), period_div: div, alphabet: alphabet.clone(), prefix: vec![], mon: W2Mon::C12R, apps: 0 };
             w2cfgs.push((format!("replies TS{ts} P=Tsl/{div}"), cfg, tier.pick(7usize, 11), tier.pick(120.0, 6000.0), tier.pick(600_000u64, 5_000_000)));
+            if div == 8 {
+                // the same alphabet from the situation "in the ring" (admitted through a GAP poll, token received)
+                let cfg = W2Cfg { ts, hsa: 7, gap_factor: 1, baud: 1, slot_bits: 100, ttr: Some(300), period_div: div, alphabet: alphabet.clone(), prefix: crate::props::w2props::prefix_for(2, ts, &ring), mon: W2Mon::C12R, apps: 0 };
+                w2cfgs.push((format!("replies in-ring TS{ts} P=Tsl/{div}"), cfg, tier.pick(5usize, 7), tier.pick(120.0, 6000.0), tier.pick(600_000u64, 5_000_000)));
+            }
         }
     }
     for (label, cfg, depth, secs, max_states) in w2cfgs {
